@@ -638,11 +638,19 @@ PlainLoop(t, a, indent) ==
           ELSE LET a2 == PlainBlanks(t, a1, indent) IN
                IF a2.s.err # "" THEN a2
                ELSE IF a2.s.flow = 0 /\ a2.s.col < indent THEN a2
+               ELSE IF a2.s.flow > 0 /\ a2.s.col < indent /\ Peek(t, a2.s, 0) \notin BreakZ
+               THEN [a2 EXCEPT !.s = Fail(a2.s, "invalid indentation in flow construct")]
                ELSE PlainLoop(t, a2, indent)
 
+\* block_indent(): the indentation of the innermost block collection, ignoring the one-column indents
+RECURSIVE BlockIndentFrom(_, _, _)
+BlockIndentFrom(idts, i, ind) == IF i = 0 \/ idts[i].nbe THEN ind ELSE BlockIndentFrom(idts, i - 1, idts[i].indent)
+BlockIndent(s) == BlockIndentFrom(s.indents, Len(s.indents), s.indent)
 FetchPlain(t, s0) ==
-  LET s == UnrollNonBlock([SaveSK(s0) EXCEPT !.ska = FALSE])
-      indent == s.indent + 1
+  LET sv == [SaveSK(s0) EXCEPT !.ska = FALSE]
+      \* in a flow collection the prepared one-column indents stay (they guard the indentation of its later lines)
+      s == IF sv.flow > 0 THEN sv ELSE UnrollNonBlock(sv)
+      indent == (IF sv.flow > 0 THEN BlockIndent(sv) ELSE s.indent) + 1
       m == Mark(s)
   IN IF s.flow > 0 /\ m[3] < indent THEN Fail(s, "invalid indentation in flow construct")
      ELSE LET a == PlainLoop(t, [s |-> s, str |-> <<>>, ws |-> <<>>, lb |-> <<>>, tb |-> <<>>, endm |-> m, start |-> m], indent)
